@@ -55,6 +55,8 @@ def plan(tier, seed):
     for pos in (8192, 16384):
         chunks.append({"key": f"straddle/{pos}", "kind": "straddle", "pos": pos, "cost": 2000})
     chunks.append({"key": "zeroneedle", "kind": "zeroneedle", "cost": 500})
+    for n in range(4, 10):
+        chunks.append({"key": f"longneedle/{n}", "kind": "longneedle", "n": n, "cost": 4000})
     # artifactkit: partition the exhaustive family by first byte
     for first in AK_ALPHA:
         chunks.append({"key": f"ak/all/{first:02x}", "kind": "ak_all", "first": first, "cost": 5 ** b["artifact_len"]})
@@ -170,6 +172,33 @@ def chunk_straddle(chunk, acc):
     acc.sample({"needle": needles[0].hex(), "boundary": pos, "offsets": [pos - 9, pos + 2]})
 
 
+def chunk_longneedle(chunk, acc):
+    """Needles of 4..9 bytes (the library's own needles are 3 and 7 bytes long) with EVERY read-buffer size from 1 to
+    needle length + 2, at every offset of a short file, from every start offset: the carry between reads is shorter
+    than the needle for the first reads."""
+    n = chunk["n"]
+    needles = [bytes(range(0x61, 0x61 + n)), b"a" * n, (b"ab" * n)[:n], b"\x00" * (n - 1) + b"\x01", b"\x00\x01\x00\x01\x00\x02\x00\x00\x00"[:n]]
+    for needle in needles:
+        for off in range(0, 2 * n + 3):
+            for filler in (b"\x00", b"a", b"z"):
+                hay = filler * off + needle + filler * 3 + (needle if off % 3 == 0 else b"")
+                acc.states += 1
+                true_all = naive_find(hay, needle)
+                for buf in list(range(1, n + 3)) + [8192]:
+                    for start, cur in ((None, 0), (0, 0), (None, min(2, len(hay))), (1, 0), (off, 0), (max(0, off - 1), 5)):
+                        cur_eff = min(cur, len(hay))
+                        start_eff = start if start is not None else cur_eff
+                        for limit in (0, off + n, off + n + 1):
+                            got = run_needle(hay, needle, buf, start, cur_eff, limit)
+                            acc.transitions += 1
+                            bad = judge_needle(hay, needle, start_eff, limit, got)
+                            acc.case((needle, off, filler, buf, start, cur_eff, limit), nontrivial=bool(true_all) or bool(got), outcome=tuple(got) if isinstance(got, list) else got)
+                            if bad:
+                                acc.fail(bad[0] + "/long-needle", {"kind": "needle", "hay": hay.hex(), "needle": needle.hex(), "buf": buf, "start": start, "cur": cur_eff, "limit": limit}, bad[1], got)
+    io.DEFAULT_BUFFER_SIZE = 8192
+    acc.sample({"needle_len": n, "buffers": f"1..{n + 2}, 8192", "needles": [x.hex() for x in needles[:3]]})
+
+
 def chunk_zeroneedle(chunk, acc):
     """Needles that begin with zero bytes (as the default config header under key 00 does) at and near offset 0."""
     for needle in (b"\x00\x01\x00\x01\x00\x02\x00", b"\x00\x00", b"\x00\x00\x00\x01", b"\x00"):
@@ -261,7 +290,7 @@ def chunk_ak_all(chunk, acc):
         acc.states += 1
         ak_judge(acc, data, 0, 0, None)
         if len(data) <= 5:
-            for start, cur, mr in ((None, 1, None), (1, 0, None), (0, 0, 0), (0, 0, 1), (0, 0, 4)):
+            for start, cur, mr in ((None, 1, None), (1, 0, None), (0, 0, 0), (0, 0, 1), (0, 0, 4), (0, 3, None), (0, len(data), None), (2, 4, None)):
                 ak_judge(acc, data, start, min(cur, len(data)), mr)
     acc.sample({"file": (first + bytes([0, 0, 0, 0x11])).hex(), "alphabet": [f"{x:02x}" for x in AK_ALPHA]})
 
@@ -286,7 +315,7 @@ def chunk_ak_constructed(chunk, acc):
                 data = pre + hdr + body
                 acc.states += 1
                 ak_judge(acc, data, 0, 0, None)
-                for start, cur, mr in ((None, 0, None), (None, p1, None), (p1, 0, None), (p1 + 1, 0, None), (0, 0, p1), (0, 0, max(p1 - 1, 0))):
+                for start, cur, mr in ((None, 0, None), (None, p1, None), (p1, 0, None), (p1 + 1, 0, None), (0, 0, p1), (0, 0, max(p1 - 1, 0)), (0, p1 + 1, None), (0, len(data), None), (p1, len(data), None)):
                     ak_judge(acc, data, start, cur, mr)
                 # every truncation of the header itself
                 if size in (0, 5) and key == keys[2] and p1 in (0, 1, 17):
@@ -309,6 +338,8 @@ def run_chunk(chunk, acc):
         chunk_straddle(chunk, acc)
     elif kind == "zeroneedle":
         chunk_zeroneedle(chunk, acc)
+    elif kind == "longneedle":
+        chunk_longneedle(chunk, acc)
     elif kind == "ak_all":
         chunk_ak_all(chunk, acc)
     elif kind == "ak_short":
